@@ -100,5 +100,5 @@ func genC20Skip(g *Gen) error {
 		}
 		g.P("def src_%s : String := %s", f[2], leanStr(g.Src(fd.Body)))
 	}
-	return nil
+	return genC20Idx(g) // reader-construction layer (c20idx.go)
 }
